@@ -28,7 +28,7 @@ enum { K_PAIRS, K_ACC, K_REJ, K_DIRECT_CALLS, K_DIRECT_NULL_CALLS, K_MATCH_CALLS
        K_NUM_TRAIL, K_NUM_INNER, K_NUM_OMIT, K_NUM_DIGITS, K_NUM_TRUNC, K_NUM_LEN0, K_CELL_BEYOND_UNTOUCHED, K_CELL_BEYOND_TOUCHED,
        K_REJ_NUMBERS_TOUCHED, K_PADDED, K_EMPTY_SKIPPED, K_PAT_USED, K_PAT_AMBIG, K_PAT_ASAN_SHARE_SKIP, K_AMBIG_PAIRS, K_AMBIG_DIFF,
        K_ACC_SKIPPED_OPT, K_ACC_ALL_PRESENT, K_ACC_LEADING_COLON, K_ACC_LOWER, K_ACC_QUERY, K_REJ_QUERY_MISMATCH,
-       K_COMMON_ACC, K_COMMON_REJ, K_HARV_PAT, K_NUM_LONGPAD, K__N };
+       K_COMMON_ACC, K_COMMON_REJ, K_HARV_PAT, K_NUM_LONGPAD, K_DISP_WITH_DATA, K__N };
 static const char * const knames[K__N] = { "pairs.total", "pairs.accepted", "pairs.rejected", "direct.calls", "direct.calls_numbers_null",
     "match.calls", "dispatch.inputs", "dispatch.handler_ran", "dispatch.no_handler", "dispatch.lexer_delivered_other_header",
     "dispatch.iscmd_own_header", "dispatch.iscmd_probe_true", "dispatch.iscmd_probe_false", "dispatch.commandnumbers_calls",
@@ -38,7 +38,7 @@ static const char * const knames[K__N] = { "pairs.total", "pairs.accepted", "pai
     "headers.empty_skipped", "patterns.used", "patterns.skipped_ambiguous", "patterns.outside_asan_share",
     "ambiguous.pairs_counted_only", "ambiguous.library_differs_from_reference",
     "accepted.with_skipped_optional", "accepted.all_keywords_present", "accepted.leading_colon", "accepted.lower_or_mixed_case",
-    "accepted.query", "rejected.query_mismatch", "common.accepted", "common.rejected", "patterns.harvested", "numbers.digit_strings_padded_past_int32_width" };
+    "accepted.query", "rejected.query_mismatch", "common.accepted", "common.rejected", "patterns.harvested", "numbers.digit_strings_padded_past_int32_width", "dispatch.inputs_with_program_data_behind_the_header" };
 static uint64_t kc[K__N];
 static uint64_t evals_local;
 static void flush_counters(void) {
@@ -284,12 +284,18 @@ static void check_pair(const pat_t * P, const char * hdr, size_t len, const char
 
     /* path 3: real dispatch */
     {
-        char line[HDR_MAX + 2];
-        memcpy(line, hdr, len); line[len] = '\n';
+        /* what follows the header in the input buffer is program data, not part of the header: the suffixes reported for the header must not
+         * depend on it (data that continues the digits of the last suffix in some number syntax: exponent, fraction, more digits after a blank) */
+        static const char * const tails[] = { "", "", " E5", " e12", "\tE5", " 1", " .5", " 5E3", " E", " 0", " 7,8", " #H1F" };
+        const char * tail = tails[(pair_no + (pair_no >> 4)) % (sizeof tails / sizeof tails[0])];
+        size_t tl = strlen(tail);
+        char line[HDR_MAX + 16];
+        memcpy(line, hdr, len); memcpy(line + len, tail, tl); line[len + tl] = '\n';
+        if (tl) kc[K_DISP_WITH_DATA]++;
         D.hdr = hdr; D.len = len; D.cls = cls; D.ran = 0; D.raw_same = 0;
         D.L = (size_t) ((pair_no + (pair_no >> 3)) % (uint64_t) (k + 2));
         kc[K_DISP_INPUTS]++; evals_local++;
-        vh_input(V, line, len + 1);
+        vh_input(V, line, len + tl + 1);
         if (D.ran) kc[K_DISP_RAN]++; else kc[K_DISP_NOT_RAN]++;
         if (r && !(D.ran && D.raw_same)) report_acceptance(2, P, hdr, len, cls, 1, 0, D.ran ? "handler ran for a different header text" : "no handler invoked through SCPI_Input");
         if (D.ran > 1) vh_violation("C03:dispatch-handler-ran-twice", "pattern \"%s\" input \"%s\\n\": handler invoked %d times", P->text, vh_esc(hdr, len), D.ran);
@@ -629,7 +635,7 @@ int main(int argc, char ** argv) {
     vh_require("numbers.default_trailing_skipped_keyword");
     vh_require("numbers.default_inner_skipped_keyword");
     vh_require("numbers.default_suffix_omitted");
-    vh_require("numbers.value_from_digits"); vh_require("numbers.digit_strings_padded_past_int32_width");
+    vh_require("numbers.value_from_digits"); vh_require("numbers.digit_strings_padded_past_int32_width"); vh_require("dispatch.inputs_with_program_data_behind_the_header");
     vh_require("numbers.cells_cut_by_len");
     vh_require("common.accepted");
     vh_require("common.rejected");
